@@ -97,6 +97,8 @@ func New[T any](
 		tree.locker = &sync.RWMutex{}
 	}
 
+	tree.buildMethods(0) // 保证 OPTIONS * 从一开始就包含 TRACE
+
 	return tree
 }
 
